@@ -526,7 +526,12 @@ static void switch_to (Fibre *next) {
 	TRACE ("switch -> t%d", next->tid);
 	if (prev) {
 		prev->saved_sp = (uintptr_t) __builtin_frame_address (0);
-		swapcontext (&prev->ctx, &next->ctx);
+		if (_setjmp (prev->jb) == 0) {
+			prev->jb_valid = 1;
+			if (next->jb_valid) _longjmp (next->jb, 1);
+			setcontext (&next->ctx);        // first entry of next (made by makecontext)
+		}
+		// resumed here by somebody's _longjmp
 	} else {
 		setcontext (&next->ctx);
 	}
